@@ -193,12 +193,75 @@ def run_native_batch(exe, scratch, cases, timeout=120):
     return res, out
 
 
-def explore(scratch, mirpath, harness, procs, timeout, known, max_steps=2_000_000):
+def expand_a2l_spec(scratch_repo):
+    """C20: replace a2lfile/src/specification.rs of the scratch copy by a fresh expansion of the DSL in
+    specification_orig.rs: the in-tree generator a2lmacros::a2lspec::a2l_specification (the function behind the
+    a2l_specification! proc macro) is run as a test of the scratch copy of a2lmacros, its output is pretty-printed with
+    rustfmt (distinct spans per impl) and spliced between the hand-written head and tail of specification_orig.rs."""
+    src = os.path.join(scratch_repo, "a2lfile", "src")
+    orig = open(os.path.join(src, "specification_orig.rs")).read()
+    key = "a2l_specification! {"
+    i = orig.index(key)
+    k = i + len(key)
+    depth = 1
+    while depth > 0:
+        c = orig[k]
+        if c == '"':
+            k += 1
+            while orig[k] != '"':
+                if orig[k] == "\\":
+                    k += 1
+                k += 1
+        elif c == "{":
+            depth += 1
+        elif c == "}":
+            depth -= 1
+        k += 1
+    body, head, tail = orig[i + len(key):k - 1], orig[:i], orig[k:]
+    lib = os.path.join(scratch_repo, "a2lmacros", "src", "lib.rs")
+    with open(lib, "a") as f:
+        f.write('''
+#[cfg(test)]
+mod verif_expand_a2l {
+    #[test]
+    fn vrt_expand_a2l() {
+        let spec = std::fs::read_to_string(std::env::var("VRT_SPEC").unwrap()).unwrap();
+        let ts: proc_macro2::TokenStream = spec.parse().unwrap();
+        let out = crate::a2lspec::a2l_specification(ts);
+        std::fs::write(std::env::var("VRT_OUT").unwrap(), out.to_string()).unwrap();
+    }
+}
+''')
+    base = os.path.join(scratch_repo, "..", "a2lspec")
+    open(base + ".in", "w").write(body)
+    env = C.env_offline({"VRT_SPEC": base + ".in", "VRT_OUT": base + ".out.rs"})
+    p = subprocess.run(["cargo", "test", "--offline", "-p", "a2lmacros", "--lib", "--target-dir",
+                        os.path.join(scratch_repo, "..", "tgt-macros"), "verif_expand_a2l::vrt_expand_a2l", "--", "--exact"],
+                       cwd=scratch_repo, env=env, stdout=subprocess.PIPE, stderr=subprocess.STDOUT, text=True)
+    if p.returncode != 0 or not os.path.exists(base + ".out.rs"):
+        raise RuntimeError("in-tree a2l_specification generator failed:\n" + p.stdout[-3000:])
+    q = subprocess.run(["rustfmt", "--edition", "2021", base + ".out.rs"], stdout=subprocess.PIPE, stderr=subprocess.STDOUT, text=True)
+    if q.returncode != 0:
+        raise RuntimeError("rustfmt of the generated code failed:\n" + q.stdout[-2000:])
+    gen = open(base + ".out.rs").read()
+    head = head.replace("use a2lmacros::a2l_specification;", "")
+    shipped = open(os.path.join(src, "specification.rs")).read()
+    # the harness module appended by inject() must survive the replacement
+    hm = shipped.find("\n#[cfg(verif)]\n#[allow(unused, clippy::all)]\npub(crate) mod verif_h {")
+    appended = shipped[hm:] if hm >= 0 else ""
+    with open(os.path.join(src, "specification.rs"), "w") as f:
+        f.write("#![allow(clippy::all)]\n" + head + gen + tail + appended)
+    return {"dsl_bytes": len(body), "generated_lines": gen.count("\n"), "shipped_lines": shipped.count("\n")}
+
+
+def explore(scratch, mirpath, harness, procs, timeout, known, max_steps=2_000_000, export_smt=None):
     outdir = os.path.join(scratch, "e2out")
     os.makedirs(outdir, exist_ok=True)
     cmd = ["python3-vt", "-m", "mirsym.run", "--mir", mirpath, "--repo", os.path.join(scratch, "repo"), "--harness", harness,
            "--out", outdir, "--procs", str(procs), "--timeout", str(timeout), "--max-steps", str(max_steps),
            "--known", ",".join(known)]
+    if export_smt:
+        cmd += ["--export-smt", export_smt]
     p = subprocess.run(cmd, cwd=C.VERIF, stdout=subprocess.PIPE, stderr=subprocess.PIPE, text=True)
     sp = os.path.join(outdir, harness + ".summary.json")
     if not os.path.exists(sp):
